@@ -13,12 +13,13 @@
 (***************************************************************************)
 EXTENDS Rational, Sequences, FiniteSets, TLC, Json
 
-UnitNames == {"meter", "centimeter", "foot", "inch", "u1", "u2", "u3", "u4"}
+UnitNames == {"meter", "centimeter", "foot", "inch", "u1", "u2", "u3", "u4", "u5"}
 Base(u) == CASE u = "meter" -> "none" [] u = "centimeter" -> "meter" [] u = "foot" -> "meter" [] u = "inch" -> "foot"
-             [] u = "u1" -> "meter" [] u = "u2" -> "u1" [] u = "u3" -> "u2" [] u = "u4" -> "inch"
+             [] u = "u1" -> "meter" [] u = "u2" -> "u1" [] u = "u3" -> "u2" [] u = "u4" -> "inch" [] u = "u5" -> "foot"
 \* units of u per one base unit
 Factor(u) == CASE u = "centimeter" -> Q(100, 1) [] u = "foot" -> Q(10000, 3048) [] u = "inch" -> Q(12, 1)
                [] u = "u1" -> Q(3, 1) [] u = "u2" -> Q(1, 2) [] u = "u3" -> Q(5, 4) [] u = "u4" -> Q(7, 1)
+               [] u = "u5" -> Q(1, 3)        \* a "yard": sibling of inch under foot
                [] OTHER -> Q(1, 1)
 RECURSIVE ToRoot(_, _)
 ToRoot(u, v) == IF Base(u) = "none" THEN v ELSE ToRoot(Base(u), Div(v, Factor(u)))
@@ -42,6 +43,9 @@ Cases ==
     \cup {[k |-> "sonar_an", mv |-> Q(mv, 1), b |-> b] : mv \in {0, 49, 980, 2450, 4999}, b \in {"inch", "centimeter", "meter", "foot"}}
     \cup {[k |-> "pressure", v |-> Q(v, 1000), vcc |-> Q(vcc, 10)] : v \in {-500, 0, 1, 500, 2500, 4500, 5000, 7500}, vcc \in {0, 33, 50}}
     \cup {[k |-> "calib", vo |-> Q(vo, 1000), p |-> Q(p, 1), vcc |-> Q(vcc, 10)] : vo \in {500, 1300, 2500, 4400}, p \in {0, 60, 120, 200}, vcc \in {33, 50}}
+    \* calibrated twice: only the last calibration counts
+    \cup {[k |-> "recalib", vo1 |-> Q(vo1, 1000), p1 |-> Q(p1, 1), vo |-> Q(vo, 1000), p |-> Q(p, 1), vcc |-> Q(vcc, 10)]
+            : vo1 \in {1300, 4400}, p1 \in {0, 120}, vo \in {500, 2500}, p \in {60, 200}, vcc \in {33, 50}}
 Init == case \in Cases
 Next == UNCHANGED case
 Spec == Init /\ [][Next]_case
@@ -51,7 +55,7 @@ Expected(c) ==
       [] c.k = "sonar_pw" -> Convert("inch", c.b, SonarInches(c.us))
       [] c.k = "sonar_an" -> Convert("centimeter", c.b, SonarCm(c.mv))
       [] c.k = "pressure" -> Pressure(c.v, c.vcc)
-      [] c.k = "calib"    -> Pressure(c.vo, Calibrated(c.vo, c.p))
+      [] c.k \in {"calib", "recalib"} -> Pressure(c.vo, Calibrated(c.vo, c.p))
 
 (* C18 *)
 IsConv == case.k = "convert"
@@ -63,10 +67,10 @@ C18_Additive == IsConv => Convert(case.a, case.b, Add(case.v, Q(7, 4))) = Add(Co
 C18_Anchors == /\ Convert("meter", "centimeter", Q(1, 1)) = Q(100, 1)
                /\ Convert("foot", "meter", Q(1, 1)) = Q(3048, 10000)
                /\ Convert("foot", "inch", Q(1, 1)) = Q(12, 1)
-C18_CalibrationExact == (case.k = "calib") => Expected(case) = case.p
+C18_CalibrationExact == (case.k \in {"calib", "recalib"}) => Expected(case) = case.p
 
 Emit == PrintT("S|" \o ToJson([case |-> case, exp |-> Expected(case)]))
 \* the user-defined part of the unit table, for the driver that builds the same Unit objects
-UserUnits == {"u1", "u2", "u3", "u4"}
+UserUnits == {"u1", "u2", "u3", "u4", "u5"}
 ASSUME PrintT("U|" \o ToJson([u \in UserUnits |-> [base |-> Base(u), factor |-> Factor(u)]]))
 =============================================================================
